@@ -126,6 +126,7 @@ struct World
   shared_ptr<ExamInfo> exam;
   std::string desc;
   bool blocks = false, tof = false, mashed = false;
+  int span = 1;
   int minSeg, maxSeg, minView, maxView, minT, maxT, minK, maxK;
   std::vector<int> axMin, axMax, segOff;
   int nbins = 0;
@@ -269,10 +270,19 @@ make_world(World& w, vh::Rng& rng, int kind, bool thorough, bool even_views, boo
   if (w.tof)
     tofmash = (!w.blocks && rng.range(0, 3) == 0) ? 5 : 1; // 5: all TOF bins mashed into one
   w.mashed = mash != 1;
-  w.pdi = vh::make_pdi(sc, span, R - 1, views, ntang, false, w.blocks ? 0 : tofmash);
+  w.span = span;
+  const int nzvar = rng.range(0, 5); // 1: two planes fewer, 2: two planes more
+  const bool arccorr = !w.blocks && !w.tof && rng.range(0, 3) == 0;
+  w.pdi = vh::make_pdi(sc, span, R - 1, views, ntang, arccorr, w.blocks ? 0 : tofmash);
   if (w.blocks && w.tof)
     w.pdi->set_tof_mash_factor(tofmash);
-  const int nz = 2 * R - 1;
+  // number of planes: usually all 2R-1 planes of the scanner; sometimes fewer or more, so that rows contain planes
+  // outside the image (the z guard of forward_project/back_project)
+  int nz = 2 * R - 1;
+  if (!w.blocks && nzvar == 1)
+    nz = 2 * R - 3;
+  if (!w.blocks && nzvar == 2)
+    nz = 2 * R + 1;
   // voxel size chosen so that the image covers 50-100% of the scanner's transaxial field of view
   // (with zoom 1 only the central tangential positions would intersect a 5-9 voxel image)
   static const float fracs[] = { 0.5F, 0.7F, 0.85F, 1.F };
@@ -286,7 +296,7 @@ make_world(World& w, vh::Rng& rng, int kind, bool thorough, bool even_views, boo
   w.finish();
   std::ostringstream d;
   d << (w.blocks ? "blocks" : "cyl") << " N=" << N << " R=" << R << " span=" << span << " viewmash=" << mash << " views=" << views
-    << " tang=" << ntang << " tofmash=" << tofmash << " nxy=" << nxy << " nz=" << nz << " voxel=" << w.image->get_voxel_size().x();
+    << " tang=" << ntang << " tofmash=" << tofmash << " nxy=" << nxy << " nz=" << nz << " voxel=" << w.image->get_voxel_size().x() << " arccorr=" << arccorr;
   w.desc = d.str();
   return true;
 }
@@ -567,6 +577,10 @@ run_setting(const World& w, const MSet& ms, vh::Rng& rng, bool thorough, int wid
 
   std::vector<double> rf, rfm;
   R.ref_fwd(x, rf, rfm);
+  std::vector<double> a1, m1, a2, m2, a3, m3; // exact-ish projections and magnitudes of x, x2 and 2x+x2
+  R.ref_fwd(x, a1, m1);
+  R.ref_fwd(x2, a2, m2);
+  R.ref_fwd(xl, a3, m3);
 
   const std::string where0 = w.desc + " | " + ms.desc();
 
@@ -686,10 +700,6 @@ run_setting(const World& w, const MSet& ms, vh::Rng& rng, bool thorough, int wid
         std::vector<float> F2, FL;
         const std::vector<float> zeros(w.nbins, 0.F);
         bool ok = forward(zeros, *X2, 0, 1, true, F2) && forward(zeros, *XL, 0, 1, true, FL) && okF;
-        std::vector<double> a1, m1, a2, m2, a3, m3;
-        R.ref_fwd(x, a1, m1);
-        R.ref_fwd(x2, a2, m2);
-        R.ref_fwd(xl, a3, m3);
         long bad = 0;
         for (int i = 0; i < w.nbins && ok; ++i)
           if (std::fabs(double(FL[i]) - (2. * F[i] + F2[i])) > 4 * EPS * (R.rows[i].size() + 2) * (2 * m1[i] + m2[i] + m3[i]))
@@ -840,7 +850,28 @@ run_setting(const World& w, const MSet& ms, vh::Rng& rng, bool thorough, int wid
                 a1 = rng.range(a0, w.aMax(bs.second));
                 t0 = rng.range(w.minT, w.maxT);
                 t1 = rng.range(t0, w.maxT);
+                if (gi == 1)
+                  { // axial sub-range only: the (viewgrams, min_ax, max_ax) overloads
+                    t0 = w.minT;
+                    t1 = w.maxT;
+                  }
               }
+            auto fwd_call = [&](stir::RelatedViewgrams<float>& v) {
+              if (gi == 0)
+                fwd->forward_project(v);
+              else if (gi == 1)
+                fwd->forward_project(v, a0, a1);
+              else
+                fwd->forward_project(v, a0, a1, t0, t1);
+            };
+            auto bck_call = [&](const stir::RelatedViewgrams<float>& v) {
+              if (gi == 0)
+                bck->back_project(v);
+              else if (gi == 1)
+                bck->back_project(v, a0, a1);
+              else
+                bck->back_project(v, a0, a1, t0, t1);
+            };
             const std::vector<char> in = group_piece(rel, k, a0, a1, t0, t1);
             // rel lists for this very range, as the projector will ask for them
             for (int t = t0; t <= t1; ++t)
@@ -860,7 +891,7 @@ run_setting(const World& w, const MSet& ms, vh::Rng& rng, bool thorough, int wid
             ViewSegmentNumbers vsk(bs.first, bs.second);
             stir::RelatedViewgrams<float> vgs = P.get_related_viewgrams(vsk, symvs, false, k);
             fwd->set_input(*X);
-            fwd->forward_project(vgs, a0, a1, t0, t1);
+            fwd_call(vgs);
             std::vector<float> ans;
             long frame_bad = 0, val_bad = 0;
             double lhs = 0;
@@ -918,7 +949,7 @@ run_setting(const World& w, const MSet& ms, vh::Rng& rng, bool thorough, int wid
                   }
             };
             send_relr();
-            bck->back_project(yv, a0, a1, t0, t1);
+            bck_call(yv);
             std::snprintf(buf, sizeof buf, "bgrp y %d %d %d %d %d %d %d", bs.first, bs.second, k, a0, a1, t0, t1);
             emit(buf, "ok");
             shared_ptr<DiscretisedDensity<3, float>> o1(w.image->get_empty_copy());
@@ -927,14 +958,14 @@ run_setting(const World& w, const MSet& ms, vh::Rng& rng, bool thorough, int wid
             bck->start_accumulating_in_new_target();
             emit("bstart", "ok");
             send_relr();
-            bck->back_project(yv, a0, a1, t0, t1);
+            bck_call(yv);
             emit(buf, "ok");
             shared_ptr<DiscretisedDensity<3, float>> o2(w.image->get_empty_copy());
             bck->get_output(*o2);
             const std::vector<float> G1 = w.read_img(*o2);
             emit("bout", hexlist(G1));
             send_relr();
-            bck->back_project(yv, a0, a1, t0, t1);
+            bck_call(yv);
             emit(buf, "ok");
             shared_ptr<DiscretisedDensity<3, float>> o3(w.image->get_empty_copy());
             bck->get_output(*o3);
@@ -965,6 +996,69 @@ run_setting(const World& w, const MSet& ms, vh::Rng& rng, bool thorough, int wid
                               "forward_project/back_project(viewgrams, sub-range) process no bin" + g + where);
             else
               oracle(std::fabs(lhs - r) <= tol, std::string(buf) + g + where);
+            if (gi == 0 && !unprocessed)
+              { // linearity on a symmetry group of viewgrams, with the arithmetic of RelatedViewgrams itself
+                stir::RelatedViewgrams<float> e = vgs.get_empty_copy();
+                bool okv = e.has_same_characteristics(vgs) && e.get_num_viewgrams() == vgs.get_num_viewgrams() && e.find_max() == 0.F
+                           && e.find_min() == 0.F;
+                stir::RelatedViewgrams<float> v1 = e, v2 = e, vl = e;
+                fwd->set_input(*X);
+                fwd->forward_project(v1);
+                fwd->set_input(*X2);
+                fwd->forward_project(v2);
+                fwd->set_input(*XL);
+                fwd->forward_project(vl);
+                stir::RelatedViewgrams<float> comb = v1;
+                comb *= 2.F;
+                comb += v2;
+                long badl = 0, badi = 0;
+                stir::RelatedViewgrams<float>::const_iterator ic = comb.begin(), il = vl.begin(), i1 = v1.begin();
+                float vmax = -1e30F, vmin = 1e30F;
+                for (; ic != comb.end(); ++ic, ++il, ++i1)
+                  for (int a = w.aMin(ic->get_segment_num()); a <= w.aMax(ic->get_segment_num()); ++a)
+                    for (int t = w.minT; t <= w.maxT; ++t)
+                      {
+                        const int i = w.idx(ic->get_segment_num(), ic->get_view_num(), ic->get_timing_pos_num(), a, t);
+                        if (std::fabs(double((*ic)[a][t]) - (*il)[a][t]) > 4 * EPS * (R.rows[i].size() + 2) * (2 * m1[i] + m2[i] + m3[i]))
+                          ++badl;
+                        if (okF && (*i1)[a][t] != F[i])
+                          ++badi;
+                        vmax = std::max(vmax, (*i1)[a][t]);
+                        vmin = std::min(vmin, (*i1)[a][t]);
+                      }
+                oracle(okv, "RelatedViewgrams::get_empty_copy is not an empty copy with the same characteristics" + g + where);
+                oracle(badl == 0, "related viewgrams: A(2x+x') != 2*Ax += Ax' (RelatedViewgrams arithmetic) on " + std::to_string(badl) + " bins" + g + where);
+                oracle(badi == 0, "forward_project(related viewgrams) differs from the whole projection on " + std::to_string(badi) + " bins" + g + where);
+                oracle(v1.find_max() == vmax && v1.find_min() == vmin, "RelatedViewgrams::find_max/find_min wrong" + g + where);
+                // (A x) - (A x) = 0, (A x)*1 = A x, /=, fill, ==
+                stir::RelatedViewgrams<float> z = v1;
+                z -= v1;
+                stir::RelatedViewgrams<float> one = e;
+                one.fill(3.F);
+                one /= 3.F;
+                stir::RelatedViewgrams<float> q = v1;
+                q *= one;
+                stir::RelatedViewgrams<float> q2 = v1;
+                q2 += 1.F;
+                q2 -= 1.F; // small integers + float: exact only up to rounding, compare with tolerance below
+                double dmax = 0;
+                stir::RelatedViewgrams<float>::const_iterator iq = q2.begin();
+                for (i1 = v1.begin(); i1 != v1.end(); ++i1, ++iq)
+                  for (int a = w.aMin(i1->get_segment_num()); a <= w.aMax(i1->get_segment_num()); ++a)
+                    for (int t = w.minT; t <= w.maxT; ++t)
+                      dmax = std::max(dmax, std::fabs(double((*iq)[a][t]) - (*i1)[a][t]));
+                stir::RelatedViewgrams<float> h = v1;
+                h /= one;
+                oracle(z.find_max() == 0.F && z.find_min() == 0.F && q == v1 && !(q != v1) && h == v1 && one.find_max() == 1.F && one.find_min() == 1.F
+                           && dmax <= 4 * EPS * (std::max(std::fabs(vmax), std::fabs(vmin)) + 1),
+                       "RelatedViewgrams arithmetic (-=, fill, /=, *=, +=float, ==) inconsistent" + g + where);
+                if (vmax != vmin)
+                  {
+                    stir::RelatedViewgrams<float> dfr = v1;
+                    dfr *= 2.F;
+                    oracle(dfr != v1 && !(dfr == v1), "RelatedViewgrams::operator== does not see a difference" + g + where);
+                  }
+              }
             g_counts[gi == 0 ? "groups_full_range" : "groups_sub_range"]++;
           }
         // every related group x timing position, full range: adjointness + additivity over groups (oracle only)
@@ -1043,7 +1137,166 @@ run_setting(const World& w, const MSet& ms, vh::Rng& rng, bool thorough, int wid
     }
 }
 
+// ------------------------------------------------------------------------------------------------ one row, directly
+
+static std::string
+rowstr(const RowT& r)
+{
+  std::string s;
+  char buf[96];
+  for (auto& e : r)
+    {
+      std::snprintf(buf, sizeof buf, " %d,%d,%d:%a", e.first[0], e.first[1], e.first[2], (double)e.second);
+      s += buf;
+    }
+  return s;
+}
+
+static ProjMatrixElemsForOneBin
+to_row(const RowT& r)
+{
+  ProjMatrixElemsForOneBin row;
+  for (auto& e : r)
+    row.push_back(ProjMatrixElemsForOneBin::value_type(Coordinate3D<int>(e.first[0], e.first[1], e.first[2]), e.second));
+  return row;
+}
+
+// ProjMatrixElemsForOneBin::forward_project(Bin&, density) / back_project(density, Bin) called directly, with rows that
+// also contain planes outside the image (the z guard) and bins that come in with a value.
+static void
+run_row_level(const World& w, vh::Rng& rng, bool thorough)
+{
+  Run R(w, rng);
+  char buf[128];
+  emit("grid " + std::to_string(w.zmin) + " " + std::to_string(w.zmax) + " " + std::to_string(w.ymin) + " " + std::to_string(w.ymax) + " "
+           + std::to_string(w.xmin) + " " + std::to_string(w.xmax),
+       "ok " + std::to_string(w.nvox));
+  const std::vector<float> x = R.rand_img(-4, 4, 10);
+  emit("img x" + intlist(x), "ok " + std::to_string(w.nvox));
+  shared_ptr<DiscretisedDensity<3, float>> X = w.make_img(x);
+  auto rand_row = [&](bool dyadic, bool out_of_range_z) {
+    // distinct voxels; z may lie one or two planes outside the image
+    std::set<std::array<int, 3>> used;
+    RowT r;
+    const int len = rng.range(0, 12);
+    for (int i = 0; i < len; ++i)
+      {
+        std::array<int, 3> c
+            = { out_of_range_z ? rng.range(w.zmin - 2, w.zmax + 2) : rng.range(w.zmin, w.zmax), rng.range(w.ymin, w.ymax), rng.range(w.xmin, w.xmax) };
+        if (!used.insert(c).second)
+          continue;
+        const float wgt = dyadic ? rng.range(1, 32) / 8.F : (float)(rng.unit() * 2.0 + 1e-3);
+        r.push_back(std::make_pair(c, wgt));
+      }
+    std::sort(r.begin(), r.end()); // push_back requires sorted order
+    return r;
+  };
+  const int nrows = thorough ? 60 : 20;
+  for (int k = 0; k < nrows; ++k)
+    {
+      const bool dyadic = k % 2 == 0;
+      const RowT r = rand_row(dyadic, true);
+      const ProjMatrixElemsForOneBin row = to_row(r);
+      const int acc = rng.range(-3, 3), yv = (k % 5 == 4) ? 0 : rng.range(-4, 4);
+      Bin b(0, 0, 0, 0, 0, (float)acc);
+      row.forward_project(b, *X);
+      std::snprintf(buf, sizeof buf, "rfwd x %d", acc);
+      emit(buf + rowstr(r), vh::hex(b.get_bin_value()));
+      shared_ptr<DiscretisedDensity<3, float>> im(X->clone());
+      row.back_project(*im, Bin(0, 0, 0, 0, 0, (float)yv));
+      std::snprintf(buf, sizeof buf, "rbck x %d", yv);
+      emit(buf + rowstr(r), hexlist(w.read_img(*im)));
+      // oracle, implementation alone (dyadic weights and small integers: float arithmetic is exact)
+      if (dyadic)
+        {
+          Bin b0(0, 0, 0, 0, 0, 0.F);
+          row.forward_project(b0, *X);
+          shared_ptr<DiscretisedDensity<3, float>> z(X->get_empty_copy());
+          row.back_project(*z, Bin(0, 0, 0, 0, 0, (float)yv));
+          double rhs = 0;
+          const std::vector<float> zv = w.read_img(*z);
+          for (int i = 0; i < w.nvox; ++i)
+            rhs += double(x[i]) * zv[i];
+          oracle(double(b0.get_bin_value()) * yv == rhs, "row level: <row x, y> != <x, row' y> (exact arithmetic) " + w.desc);
+          oracle(b.get_bin_value() == b0.get_bin_value() + acc, "row level: forward_project does not add to the value the bin comes in with " + w.desc);
+          // additivity over pieces at row level: merge = sum of the rows
+          const RowT r2 = rand_row(true, true);
+          ProjMatrixElemsForOneBin ra = to_row(r), rb = to_row(r2);
+          Bin b2(0, 0, 0, 0, 0, 0.F);
+          rb.forward_project(b2, *X);
+          ra.merge(rb);
+          Bin bm(0, 0, 0, 0, 0, 0.F);
+          ra.forward_project(bm, *X);
+          std::map<std::array<int, 3>, float> un;
+          for (auto& e : r)
+            un[e.first] += e.second;
+          for (auto& e : r2)
+            un[e.first] += e.second;
+          bool same = ra.size() == un.size() && ra.check_state() == Succeeded::yes;
+          double sq = 0;
+          for (ProjMatrixElemsForOneBin::const_iterator it = ra.begin(); it != ra.end() && same; ++it)
+            {
+              std::array<int, 3> c = { it->coord1(), it->coord2(), it->coord3() };
+              same = un.count(c) && un[c] == it->get_value();
+              sq += double(it->get_value()) * it->get_value();
+            }
+          oracle(same, "row level: merge() is not the element-wise sum of the two rows " + w.desc);
+          oracle(bm.get_bin_value() == b0.get_bin_value() + b2.get_bin_value(), "row level: projecting the merged row != sum of projecting the rows " + w.desc);
+          oracle(!same || std::fabs(ra.square_sum() - sq) <= 1e-5 * sq, "row level: square_sum wrong " + w.desc);
+          // scaling
+          ProjMatrixElemsForOneBin rs = to_row(r);
+          rs *= 2.F;
+          Bin bs(0, 0, 0, 0, 0, 0.F);
+          rs.forward_project(bs, *X);
+          oracle(bs.get_bin_value() == 2 * b0.get_bin_value(), "row level: operator*= does not scale the projection " + w.desc);
+          ProjMatrixElemsForOneBin rh = to_row(r);
+          rh *= 0.5F;
+          Bin bh(0, 0, 0, 0, 0, 0.F);
+          rh.forward_project(bh, *X);
+          oracle(2 * bh.get_bin_value() == b0.get_bin_value(), "row level: operator*=(0.5) does not scale the projection " + w.desc);
+          rh /= 0.5F;
+          oracle(rh == row, "row level: operator/=(0.5) does not undo operator*=(0.5) " + w.desc);
+          ProjMatrixElemsForOneBin rs1 = to_row(r);
+          rs1 *= 1.F;
+          rs /= 2.F;
+          oracle(rs == row && !(rs != row) && rs1 == row, "row level: operator/= does not undo operator*= (or == fails) " + w.desc);
+          if (r.size() > 0)
+            {
+              ProjMatrixElemsForOneBin rd = to_row(r);
+              rd *= 1.5F;
+              oracle(rd != row, "row level: operator== does not see scaled values " + w.desc);
+            }
+          rs.erase();
+          oracle(rs.size() == 0, "row level: erase() leaves elements " + w.desc);
+        }
+      g_counts["row_level_rows"]++;
+    }
+}
+
 // ------------------------------------------------------------------------------------------------ on-the-fly ray tracing
+
+// Degenerate LORs: an end point of the LOR on the boundary of the cylindrical field of view lies (to rounding) on a voxel
+// boundary in x or y.  Which voxel gets the last bit of the ray then depends on float rounding in either implementation
+// (C03 screens the same class); such bins are not compared.
+static bool
+lor_end_point_on_voxel_boundary(const World& w, int seg, int view, int ax, int tang)
+{
+  const Bin bin(seg, view, ax, tang);
+  const double s = w.pdi->get_s(bin), phi = w.pdi->get_phi(bin);
+  const CartesianCoordinate3D<float> vs = w.image->get_voxel_size();
+  const double fov = std::min(std::min(w.xmax, -w.xmin) * (double)vs.x(), std::min(w.ymax, -w.ymin) * (double)vs.y());
+  if (std::fabs(s) >= fov * (1 + 1e-4))
+    return false; // misses the field of view in both implementations
+  const double a = std::sqrt(std::max(0., fov * fov - s * s));
+  for (int sign = -1; sign <= 1; sign += 2)
+    {
+      const double X = (s * std::cos(phi) + sign * a * std::sin(phi)) / vs.x(), Y = (s * std::sin(phi) - sign * a * std::cos(phi)) / vs.y();
+      const double fx = X + 0.5 - std::floor(X + 0.5), fy = Y + 0.5 - std::floor(Y + 0.5);
+      if (fx < 2e-3 || fx > 1 - 2e-3 || fy < 2e-3 || fy > 1 - 2e-3)
+        return true;
+    }
+  return false;
+}
 
 static void
 run_on_the_fly(const World& w, vh::Rng& rng, bool thorough)
@@ -1097,8 +1350,21 @@ run_on_the_fly(const World& w, vh::Rng& rng, bool thorough)
       double gmax = 0;
       for (float v : a2)
         gmax = std::max(gmax, (double)std::fabs(v));
-      long bad = 0;
+      long bad = 0, bad_class2 = 0;
       double worst = 0;
+      // class of the known candidate below: segment 0 of span-1 data, tangential position 0, last axial position of the
+      // request, related set whose basic view is neither 0 nor 45 degrees, and the plane above that axial position is inside
+      // the image (always for an axial sub-range that stops early; for the full range only if the image has extra planes)
+      shared_ptr<DataSymmetriesForViewSegmentNumbers> s0(otf.get_symmetries_used()->clone());
+      auto in_class2 = [&](int seg, int view, int a, int t, int a_last) {
+        if (seg != 0 || t != 0 || a != a_last || w.span != 1)
+          return false;
+        if (!(a_last < w.aMax(0) || (w.zmax - w.zmin + 1) > 2 * w.aMax(0) + 1))
+          return false;
+        ViewSegmentNumbers b(view, seg);
+        s0->find_basic_view_segment_numbers(b);
+        return b.view_num() != 0 && 4 * b.view_num() != V;
+      };
       for (int s = w.minSeg; s <= w.maxSeg; ++s)
         for (int v = w.minView; v <= w.maxView; ++v)
           {
@@ -1112,6 +1378,16 @@ run_on_the_fly(const World& w, vh::Rng& rng, bool thorough)
                 {
                   const int b = w.idx(s, v, 0, a, t);
                   const double d = std::fabs(double(a1[b]) - a2[b]);
+                  if (d > tol && lor_end_point_on_voxel_boundary(w, s, v, a, t))
+                    {
+                      g_counts["otf_bins_not_compared_lor_end_point_on_voxel_boundary"]++;
+                      continue;
+                    }
+                  if (d > tol && in_class2(s, v, a, t, w.aMax(0)))
+                    {
+                      ++bad_class2;
+                      continue;
+                    }
                   worst = std::max(worst, d);
                   if (d > tol)
                     ++bad;
@@ -1120,8 +1396,135 @@ run_on_the_fly(const World& w, vh::Rng& rng, bool thorough)
       std::snprintf(buf, sizeof buf, "on-the-fly ray tracing forward projector differs from the ray-tracing matrix on %ld bins (worst %.3g, data max %.3g) subset %d/%d ",
                     bad, worst, gmax, i, n);
       oracle(bad == 0, std::string(buf) + where);
+      if (bad_class2 > 0)
+        known_candidate("on-the-fly-raytracing:segment0:view-not-multiple-of-45-degrees:tangential-pos-0:half-plane-above-last-requested-axial-pos-missing:2-planes-per-axial-pos",
+                        "on-the-fly ray tracing forward projector differs from the ray-tracing matrix on " + std::to_string(bad_class2)
+                            + " bins of segment 0, tangential position 0, last axial position (image with planes beyond the last ring) " + where);
       g_counts["otf_compared"]++;
+      if (gmax > 0)
+        g_counts["otf_worst_deviation_ppm_of_data_max"] = std::max<long>(g_counts["otf_worst_deviation_ppm_of_data_max"], (long)(1e6 * worst / gmax));
+      // related viewgrams over a random sub-range, through forward_project(RelatedViewgrams&, ranges)
+      shared_ptr<DataSymmetriesForViewSegmentNumbers> s1(otf.get_symmetries_used()->clone()), s2(fm.get_symmetries_used()->clone());
+      for (int g = 0; g < 5; ++g)
+        {
+          ViewSegmentNumbers vs(rng.range(w.minView, w.maxView), rng.range(w.minSeg, w.maxSeg));
+          if (g >= 3)
+            vs = ViewSegmentNumbers(1, 0); // for >= 8 views: a segment-0 group of 4 viewgrams (the "all symmetries 2D" code)
+          s1->find_basic_view_segment_numbers(vs);
+          const int sg = vs.segment_num();
+          int a0 = rng.range(w.aMin(sg), w.aMax(sg)), a1 = rng.range(a0, w.aMax(sg)), t0 = rng.range(w.minT, w.maxT), t1 = rng.range(t0, w.maxT);
+          if (g == 0)
+            {
+              a0 = w.aMin(sg);
+              a1 = w.aMax(sg);
+              t0 = w.minT;
+              t1 = w.maxT;
+            }
+          if (g == 3)
+            { // axial sub-range that stops before the last ring, tangential range containing 0
+              a0 = w.aMin(sg);
+              a1 = std::max(a0, w.aMax(sg) - 1);
+              t0 = rng.range(w.minT, 0);
+              t1 = rng.range(0, w.maxT);
+            }
+          const bool prefilled = g == 4; // the viewgrams come in with values: they have to be overwritten
+          if (prefilled)
+            { // (full axial range, to keep this apart from the axial sub-range case above)
+              a0 = w.aMin(sg);
+              a1 = w.aMax(sg);
+            }
+          stir::RelatedViewgrams<float> v1 = w.pdi->get_empty_related_viewgrams(vs, s1), v2 = w.pdi->get_empty_related_viewgrams(vs, s2);
+          if (prefilled)
+            {
+              v1.fill(5.F);
+              v2.fill(5.F);
+            }
+          bool okn = v1.get_num_viewgrams() == v2.get_num_viewgrams();
+          long badg = 0, bad_class2g = 0, bad_adds = 0, bad_outside = 0;
+          if (okn)
+            {
+              otf.set_input(*X);
+              fm.set_input(*X);
+              otf.forward_project(v1, a0, a1, t0, t1);
+              fm.forward_project(v2, a0, a1, t0, t1);
+              stir::RelatedViewgrams<float>::const_iterator i1 = v1.begin(), i2 = v2.begin();
+              for (; i1 != v1.end(); ++i1, ++i2)
+                {
+                  okn = okn && i1->get_view_num() == i2->get_view_num() && i1->get_segment_num() == i2->get_segment_num();
+                  const double tol = 1e-4 * std::max((double)std::max(std::fabs(i2->find_max()), std::fabs(i2->find_min())), 0.05 * gmax);
+                  for (int a = w.aMin(i1->get_segment_num()); a <= w.aMax(i1->get_segment_num()); ++a)
+                    for (int t = w.minT; t <= w.maxT; ++t)
+                      {
+                        const bool inside = a >= a0 && a <= a1 && t >= t0 && t <= t1;
+                        if (std::fabs(double((*i1)[a][t]) - (*i2)[a][t]) > tol)
+                          {
+                            if (lor_end_point_on_voxel_boundary(w, i1->get_segment_num(), i1->get_view_num(), a, t))
+                              {
+                                g_counts["otf_bins_not_compared_lor_end_point_on_voxel_boundary"]++;
+                                continue;
+                              }
+                            ++badg;
+                            if (!inside)
+                              ++bad_outside;
+                            if (in_class2(i1->get_segment_num(), i1->get_view_num(), a, t, a1))
+                              ++bad_class2g;
+                            if (prefilled && inside
+                                && (std::fabs(double((*i1)[a][t]) - 5. - (*i2)[a][t]) <= tol || in_class2(i1->get_segment_num(), i1->get_view_num(), a, t, a1)))
+                              ++bad_adds;
+                          }
+                      }
+                }
+            }
+          std::snprintf(buf, sizeof buf, "on-the-fly ray tracing vs matrix on related viewgrams view=%d seg=%d ax=%d..%d tang=%d..%d%s: %ld bins differ (same related set: %d) ",
+                        vs.view_num(), vs.segment_num(), a0, a1, t0, t1, prefilled ? " (viewgrams pre-filled with 5)" : "", badg, (int)okn);
+          if (okn && badg > 0 && badg == bad_class2g && bad_outside == 0 && !prefilled)
+            known_candidate("on-the-fly-raytracing:segment0:view-not-multiple-of-45-degrees:tangential-pos-0:half-plane-above-last-requested-axial-pos-missing:2-planes-per-axial-pos",
+                            std::string(buf)
+                                + "(all at tangential position 0 of the last requested axial position): forward_project_all_symmetries_2D calls "
+                                  "proj_Siddon<4>(Projall2, .., min_axial_pos_num, max_axial_pos_num, -0.5F, ..) where the three sibling calls pass "
+                                  "max_axial_pos_num + 1, so the half-plane contribution Projall2[max_axial_pos_num + 1] is missing "
+                                + where);
+          else if (okn && prefilled && badg > 0 && badg == bad_adds)
+            known_candidate("on-the-fly-raytracing:forward_project(RelatedViewgrams)-adds-to-the-viewgrams-instead-of-overwriting",
+                            std::string(buf)
+                                + "(all equal to old value + projection): ForwardProjectorByBinUsingRayTracing accumulates with += into the viewgrams "
+                                  "passed in, the base-class contract and the matrix projector overwrite; masked in forward_project(ProjData&) by "
+                                  "get_empty_related_viewgrams "
+                                + where);
+          else
+            oracle(okn && badg == 0, std::string(buf) + where);
+          g_counts["otf_groups_compared"]++;
+        }
     }
+}
+
+// larger cylindrical non-TOF geometries for the on-the-fly comparison only (no model involved): enough views for every
+// symmetry case of the hand-optimised Siddon code (1, 2, 4 and 8 related viewgrams, 2D and oblique segments)
+static bool
+make_otf_world(World& w, vh::Rng& rng, int k)
+{
+  w = World();
+  static const int Ns[] = { 16, 24, 32, 20, 28, 40 };
+  const int N = Ns[k % 6];
+  const int R = rng.range(2, 4);
+  const int span = (k % 3 == 2) ? 3 : 1;
+  shared_ptr<Scanner> sc = vh::make_scanner(N, R, -1);
+  const int ntang = rng.range(N / 2 - 3, N / 2 - 1);
+  w.pdi = vh::make_pdi(sc, span, R - 1, N / 2, ntang, false, 0);
+  w.span = span;
+  const int nxy = rng.range(7, 15);
+  static const float fracs[] = { 0.5F, 0.7F, 0.85F, 1.F };
+  const float zoom = sc->get_default_bin_size() * nxy / (2.F * sc->get_inner_ring_radius() * fracs[rng.range(0, 3)]);
+  w.image = vh::make_image(*w.pdi, zoom, nxy, 2 * R - 1);
+  w.exam.reset(new ExamInfo);
+  w.exam->imaging_modality = ImagingModality::PT;
+  w.image->set_exam_info(*w.exam);
+  w.finish();
+  std::ostringstream d;
+  d << "otf-world cyl N=" << N << " R=" << R << " span=" << span << " views=" << N / 2 << " tang=" << ntang << " nxy=" << nxy
+    << " voxel=" << w.image->get_voxel_size().x();
+  w.desc = d.str();
+  return true;
 }
 
 int
@@ -1192,7 +1595,22 @@ main(int argc, char** argv)
               g_counts[ms.type == 1 ? "interpolation_settings_refused" : "raytracing_settings_refused"]++;
             }
         }
+      run_row_level(w, rng, thorough);
       run_on_the_fly(w, rng, thorough);
+    }
+  for (int k = 0; k < (thorough ? 12 : 4); ++k)
+    {
+      World w;
+      try
+        {
+          make_otf_world(w, rng, k);
+          run_on_the_fly(w, rng, thorough);
+          g_counts["otf_worlds"]++;
+        }
+      catch (std::exception& e)
+        {
+          std::fprintf(g_orc, "NOTE on-the-fly world %d skipped: %s\n", k, e.what());
+        }
     }
   for (auto& kv : g_counts)
     std::fprintf(g_orc, "COUNT %s %ld\n", kv.first.c_str(), kv.second);
